@@ -1069,6 +1069,11 @@ func (e *Engine) typeAssert(st *State, x *ssa.TypeAssert) Val {
 	} else {
 		ok = tb.Eq(v.ifTag(), tb.Int(e.typeTag(AT)))
 		res = e.unbox(st, Val{T: v.T}, AT)
+		if _, isPtr := AT.Underlying().(*types.Pointer); isPtr && len(res.T) == 1 {
+			// modelling assumption: interface values of unknown origin do not hold typed-nil pointers
+			e.Assumed["interface values of unknown dynamic type do not hold typed-nil pointers (a successful type assertion to a pointer type yields a non-nil pointer)"] = true
+			e.assume(st, tb.Implies(ok, tb.Neq(res.T[0], tb.Int(0))))
+		}
 	}
 	if x.CommaOk {
 		// the value is the zero value when !ok; callers in practice only use it under ok
